@@ -15,6 +15,18 @@ driver `drv_wire` (lean/Driver/Wire.lean):
         t         raise socket.timeout("timed out")
         e<errno>  raise OSError(errno, ...)
 
+    poll side (one `Stream.poll` call consumes events up to its answer; script on the transport: `poll_script`)
+        r         `p.poll(t)` reports the descriptor (readable / hung up / in error)
+        i         `p.poll(t)` returns []  (idle: the timeout elapsed)
+        n         `p.poll(t)` raises select.error(EINTR)
+        s<errno>  `p.poll(t)` raises select.error(errno)
+        f<errno>  `sock.fileno()` raises OSError(errno)            (FakeSocket only)
+        g         `p.register(fd, ..)` refuses the descriptor with ValueError (as for fd -1)
+    close faults: `FakeSocket(close_fault=True)` makes the first `sock.close()` raise OSError(EIO) (the socket
+    object is closed all the same, as CPython's is); `FakePipe(close_fault=1 | 2)` makes `incoming.close()` /
+    `outgoing.close()` raise once (the file object is closed all the same, as CPython's are);
+    `shutdown_fault=True` makes every `sock.shutdown()` raise.
+
 When a script runs out the call raises `ScriptExhausted` — a BaseException, so that no `except Exception`
 / `except socket.error` of the code under test swallows it: a real transport would block forever there
 ("starved").  Fault placement: an event is the k-th call of its kind by position in the script; a fault at
@@ -34,11 +46,15 @@ Typical use:
 import contextlib
 import errno
 import os
+import re
 import socket
 
 
 class ScriptExhausted(BaseException):
     """the scripted transport has no event left for this call: a real transport would block forever"""
+
+
+_EVENT = re.compile(r"^(?:[ceasf]\d+|[tznrig])$")
 
 
 def _parse_item(item):
@@ -50,7 +66,7 @@ def _parse_item(item):
         n = int(n)
     else:
         ev, n = item, 1
-    if ev[0] not in "ctezan" or (ev[0] in "cea" and not ev[1:].isdigit()) or (ev[0] in "tzn" and len(ev) != 1):
+    if not _EVENT.match(ev):
         raise ValueError("bad script event %r" % (ev,))
     return ev, int(n)
 
@@ -87,6 +103,13 @@ class Script:
     def items_left(self):
         return [(ev, n) for ev, n in self.runs[self.pos:] if n > 0]
 
+    def peek(self):
+        """the next event without consuming it ('' when none is left)"""
+        for ev, n in self.runs[self.pos:]:
+            if n > 0:
+                return ev
+        return ""
+
     def next(self):
         while self.pos < len(self.runs) and self.runs[self.pos][1] == 0:
             self.pos += 1
@@ -108,7 +131,9 @@ def _raise_for(ev):
 class _Transport:
     """the state shared by the fake socket and the fake pipe: wire to deliver, scripts, accepted bytes"""
 
-    def __init__(self, wire=b"", recv_script=(), send_script=()):
+    def __init__(self, wire=b"", recv_script=(), send_script=(), poll_script=None):
+        self.poll_script = None if poll_script is None else (
+            poll_script if isinstance(poll_script, Script) else Script(poll_script))
         self.wire = bytes(wire)
         self.rpos = 0
         self.recv_script = recv_script if isinstance(recv_script, Script) else Script(recv_script)
@@ -154,11 +179,14 @@ class _Transport:
 class FakeSocket(_Transport):
     """what `SocketStream` needs of a socket; `recv`/`send` follow the scripts"""
 
-    def __init__(self, wire=b"", recv_script=(), send_script=(), fd=10 ** 6 + 1):
-        _Transport.__init__(self, wire, recv_script, send_script)
+    def __init__(self, wire=b"", recv_script=(), send_script=(), fd=10 ** 6 + 1, poll_script=None,
+                 close_fault=False, shutdown_fault=False):
+        _Transport.__init__(self, wire, recv_script, send_script, poll_script)
         self._fd = fd
         self.closed = False
         self.timeout = None
+        self.close_fault = bool(close_fault)
+        self.shutdown_fault = bool(shutdown_fault)
 
     def _check_open(self):
         if self.closed:
@@ -181,13 +209,21 @@ class FakeSocket(_Transport):
     def shutdown(self, how):
         self.calls["shutdown"] += 1
         self._check_open()
+        if self.shutdown_fault:
+            raise OSError(errno.ENOTCONN, os.strerror(errno.ENOTCONN))
 
     def close(self):
         self.calls["close"] += 1
         self.closed = True
+        if self.close_fault:
+            self.close_fault = False
+            raise OSError(errno.EIO, os.strerror(errno.EIO))
 
     def fileno(self):
         self._check_open()
+        ps = self.poll_script
+        if ps is not None and ps.peek()[:1] == "f":
+            _raise_for(ps.next())
         return self._fd
 
     def settimeout(self, t):
@@ -213,10 +249,11 @@ class FakeFile:
     """one end of a pipe as a Python file object: only `fileno/close/flush/closed`; the data path is
     `os.read` / `os.write` on its descriptor"""
 
-    def __init__(self, fd):
+    def __init__(self, fd, close_fault=False):
         self._fd = fd
         self.closed = False
         self.close_calls = 0
+        self.close_fault = bool(close_fault)
 
     def fileno(self):
         if self.closed:
@@ -229,6 +266,9 @@ class FakeFile:
     def close(self):
         self.close_calls += 1
         self.closed = True
+        if self.close_fault:
+            self.close_fault = False
+            raise OSError(errno.EIO, os.strerror(errno.EIO))
 
 
 _NEXT_FD = [2 * 10 ** 6]
@@ -238,11 +278,11 @@ class FakePipe(_Transport):
     """a pair of simplex pipes (`incoming`, `outgoing`) for `PipeStream(incoming, outgoing)`; descriptors
     are numbers no real file has; use inside `patched_stream_os(pipe)`"""
 
-    def __init__(self, wire=b"", recv_script=(), send_script=()):
-        _Transport.__init__(self, wire, recv_script, send_script)
+    def __init__(self, wire=b"", recv_script=(), send_script=(), poll_script=None, close_fault=None):
+        _Transport.__init__(self, wire, recv_script, send_script, poll_script)
         _NEXT_FD[0] += 2
-        self.incoming = FakeFile(_NEXT_FD[0])
-        self.outgoing = FakeFile(_NEXT_FD[0] + 1)
+        self.incoming = FakeFile(_NEXT_FD[0], close_fault == 1)
+        self.outgoing = FakeFile(_NEXT_FD[0] + 1, close_fault == 2)
 
     @property
     def closed(self):
@@ -250,16 +290,28 @@ class FakePipe(_Transport):
 
 
 class FakePoll:
-    """replacement for `rpyc.lib.compat.poll()` inside rpyc.core.stream: a registered scripted descriptor
-    is readable iff its transport has undelivered wire bytes (or its poll_script says so: 'r' ready,
-    'n' not ready, e<errno> select error)."""
+    """replacement for `rpyc.lib.compat.poll()` inside rpyc.core.stream.  For a registered scripted
+    descriptor whose transport has a `poll_script` the script answers (see the module docstring); without
+    one the descriptor is reported iff its transport has undelivered wire bytes."""
 
     def __init__(self, registry, poll_script=None):
         self.registry = registry
         self.fds = []
-        self.poll_script = poll_script
+        self.poll_script = poll_script          # a script for all descriptors (overrides the transports')
+
+    def _script(self, fd):
+        if self.poll_script is not None:
+            return self.poll_script
+        tr = self.registry.get(fd)
+        return None if tr is None else tr.poll_script
 
     def register(self, fd, mode):
+        ps = self._script(fd)
+        if ps is not None and ps.peek() == "g":
+            ps.next()
+            raise ValueError("file descriptor cannot be a negative integer (-1)")
+        if isinstance(fd, int) and fd < 0:
+            raise ValueError("file descriptor cannot be a negative integer (%d)" % fd)
         self.fds.append(fd)
 
     modify = register
@@ -268,18 +320,26 @@ class FakePoll:
         self.fds = [f for f in self.fds if f != fd]
 
     def poll(self, timeout=None):
-        if self.poll_script is not None:
-            ev = self.poll_script.next()
-            if ev == "n":
-                return []
-            if ev[0] == "e":
-                _raise_for(ev)
-            return [(fd, "r") for fd in self.fds]
         out = []
         for fd in self.fds:
-            tr = self.registry.get(fd)
-            if tr is not None and tr.wire_left() > 0:
+            ps = self._script(fd)
+            if ps is None:
+                tr = self.registry.get(fd)
+                if tr is not None and tr.wire_left() > 0:
+                    out.append((fd, "r"))
+                continue
+            ev = ps.next()
+            if ev == "r":
                 out.append((fd, "r"))
+            elif ev == "i":
+                pass
+            elif ev == "n":
+                raise OSError(errno.EINTR, os.strerror(errno.EINTR))
+            elif ev[0] == "s":
+                e = int(ev[1:])
+                raise OSError(e, os.strerror(e))
+            else:
+                raise ValueError("not a poll event here: %r" % (ev,))
         return out
 
 
